@@ -104,6 +104,7 @@ type World struct {
 	Hist     map[string]int
 	Failures []Failure
 	Ops      int
+	firstDiffLine int // line of the first correspondence DIFF (-1: none)
 }
 
 type Failure struct {
@@ -114,7 +115,7 @@ type Failure struct {
 }
 
 func NewWorld(s *node.Settings, nWallets int, validators []int, rng *rand.Rand, driverPath string, monitors bool) (*World, error) {
-	w := &World{S: s, Rng: rng, txs: map[string]*ledger.Transaction{}, shippedTx: map[string]bool{}, sigChecks: map[string]int{}, shippedBk: map[string]bool{},
+	w := &World{S: s, Rng: rng, txs: map[string]*ledger.Transaction{}, shippedTx: map[string]bool{}, sigChecks: map[string]int{}, firstDiffLine: -1, shippedBk: map[string]bool{},
 		created: map[string]map[int64]bool{}, emitted: map[valKey]bool{}, allTs: map[int64]bool{}, Hist: map[string]int{}}
 	for i := 0; i < nWallets; i++ {
 		w.Wallets = append(w.Wallets, node.NewWallet(i))
@@ -166,6 +167,9 @@ func (w *World) send(line map[string]interface{}, kind string) *Verdict {
 		w.Failures = append(w.Failures, Failure{"harness", "driver error: " + v.Error, ln, kind})
 	}
 	for _, d := range v.Diffs {
+		if w.firstDiffLine < 0 {
+			w.firstDiffLine = ln
+		}
 		w.Failures = append(w.Failures, Failure{"diff", d, ln, kind})
 	}
 	for _, p := range v.Props {
@@ -184,6 +188,22 @@ func (w *World) send(line map[string]interface{}, kind string) *Verdict {
 }
 
 // ---------------------------------------------------------------- definitions shipped to the driver
+
+// Continue says whether a scenario should go on: always while nothing failed; after a correspondence DIFF (the
+// driver then re-synchronises the model with the observed state) for up to 30 more trace lines, looking for a PROP
+// failure — a concrete input on which the PROPERTY, not only the correspondence, fails; never after a PROP, panic or
+// harness failure.
+func (w *World) Continue() bool {
+	if len(w.Failures) == 0 {
+		return true
+	}
+	for _, f := range w.Failures {
+		if f.Kind != "diff" {
+			return false
+		}
+	}
+	return w.firstDiffLine >= 0 && len(w.Lines)-w.firstDiffLine < 30
+}
 
 func short(s string) string {
 	if len(s) > 10 {
